@@ -1553,6 +1553,7 @@ fn parse_expr_unchecked(
                 .get_type_layer(composite_ty_nomod);
 
             // If it is a constant buffer then auto unwrap the inner type
+            let composite_is_struct = matches!(composite_tyl_nomod, ir::TypeLayer::Struct(_));
             if let ir::TypeLayer::Object(ir::ObjectType::ConstantBuffer(inner)) =
                 composite_tyl_nomod
             {
@@ -1607,6 +1608,12 @@ fn parse_expr_unchecked(
                         Ok(StructMemberValue::Variable(ty, id, member_index)) => {
                             let composite = Box::new(composite_ir);
                             let member = ir::Expression::StructMember(composite, id, member_index);
+                            // Members of a const struct object are const
+                            let ty = if composite_mod.is_const && composite_is_struct {
+                                context.module.type_registry.make_const(ty)
+                            } else {
+                                ty
+                            };
                             let ety = ExpressionType(ty, composite_ety.1);
                             Ok(TypedExpression::Value(member, ety))
                         }
